@@ -72,6 +72,11 @@ Proof.
            | |- context [match ?x with _ => _ end] => destruct x; try discriminate
            | |- Ok (_, _) = Ok (_, _) -> _ => let H := fresh in intros H; injection H as _ <-; reflexivity
            end. }
+  destruct (String.eqb g "set").
+  { destruct args.
+    - pose proof (alloc_frame (ODict []) st) as F. destruct (alloc (ODict []) st) as [c st1]. cbn [snd] in F.
+      intros H. injection H as _ <-. exact F.
+    - intros H. injection H as _ <-. apply frame_refl. }
   destruct (String.eqb g "createCanvas").
   { pose proof (alloc_frame (OCanvas (length args)) st) as F. destruct (alloc (OCanvas (length args)) st) as [c st1].
     cbn [snd] in F. intros H. injection H as _ <-. destruct F as [F1 [F2 F3]]. split; [exact F1|]. split; [exact F2|exact F3]. }
